@@ -102,6 +102,11 @@ Theorem C07_oracle_desc_orphan_all : forall f s tip, Inv s tip -> no_forb f s ->
   spec_desc_orphan_all f (rows_of s) = true.
 Proof. exact desc_orphan_all_inv. Qed.
 
+(* ... and accepts ONLY tables in which every descendant at any depth is an ORPHAN: the oracle decides the clause *)
+Theorem C07_oracle_desc_orphan_all_complete : forall f s, NoDup (ids s) ->
+  spec_desc_orphan_all f (rows_of s) = true -> forall r, desc_forb f s r -> st r = Orphan.
+Proof. exact desc_orphan_all_complete. Qed.
+
 Theorem C07_oracle_desc_orphan : forall f s, Valid s -> no_forb f s -> memN 0%N f = false -> spec_desc_orphan f (rows_of s) = true.
 Proof. exact descendants_orphan_valid. Qed.
 
@@ -330,6 +335,7 @@ Print Assumptions C07_descendants_orphan.
 Print Assumptions C07_descendants_orphan_forever.
 Print Assumptions C07_orphans_stay_orphans.
 Print Assumptions C07_oracle_desc_orphan_all.
+Print Assumptions C07_oracle_desc_orphan_all_complete.
 Print Assumptions C07_oracle_desc_orphan.
 Print Assumptions C07_orphans_stay_orphans_partial.
 Print Assumptions C07_rejected_peer_dropped_default.
